@@ -4,13 +4,14 @@ import json, shutil, sys, os, glob
 src, name, prop, needs, caught = sys.argv[1:6]
 missed = sys.argv[6] if len(sys.argv) > 6 else ""
 note = sys.argv[7] if len(sys.argv) > 7 else ""
+out = src if os.path.exists(f"{src}/patch.diff") else f"{src}/out"
 dst = f"/verif/seeded/{name}"
 os.makedirs(dst, exist_ok=True)
-shutil.copy(f"{src}/out/patch.diff", f"{dst}/patch.diff")
-for f in glob.glob(f"{src}/out/*.rs"):
+shutil.copy(f"{out}/patch.diff", f"{dst}/patch.diff")
+for f in glob.glob(f"{out}/*.rs"):
     shutil.copy(f, f"{dst}/demo.rs")
-if os.path.exists(f"{src}/out/notes.md"):
-    shutil.copy(f"{src}/out/notes.md", f"{dst}/notes.md")
+if os.path.exists(f"{out}/notes.md"):
+    shutil.copy(f"{out}/notes.md", f"{dst}/notes.md")
 meta = {
     "breaks_property": prop,
     "origin": "independent sub-agent given only the property text and a scratch worktree",
